@@ -4,7 +4,7 @@ Require Import Extraction ExtrOcamlBasic.
 Extraction Blacklist List String Int.
 Extraction "../ocaml/extracted/c15.ml"
   run_call run commands instr_call sec_ctrl sec_start sec_end penult
-  decasteljau bernstein step_nan_at step_rule_nan_b deriv1 deriv2 ctrl_span_lt_quarter
+  decasteljau bernstein step_clamp_at step_rule_clamp_b deriv1 deriv2 ctrl_span_lt_quarter
   seg_closer_than q_seg_closer grid_round on_grid
   decasteljauZ round_shift circle_h ell_map_h h_seg_closer
   stereo ell_affine aff_apply aff_unapply aff_det norm2 inner cross padd psub pscale
